@@ -27,7 +27,7 @@ Predicates are propositional formulas over *case variables* with finite domains 
 branch of an Alt holds); `valuations(ts)` enumerates the product of the domains of the variables of several templates;
 `compare(code, ref_or_list_of_alternatives)` -> (mismatches, n_valuations): for every valuation on which the code and
 at least one alternative are defined the code's atom list must equal that of some alternative (literals bytewise, holes
-by canonical expression and format spec, loops/joins structurally; a reference Join over "*" accepts any collection).
+by canonical expression and format spec, loops/joins structurally; a reference Join/Star over "*" accepts any collection / loop range).
 `Mismatch.shape` is one of literal | hole-expr | hole-spec | structure.  Same-text condition atoms are the same
 variable: callers rely on `Extractor.stable` (no assignment / &mut / non-pure method on an overlapping place) for
 substituted lets; conditions themselves are compared by text on one path only.
@@ -1556,7 +1556,7 @@ def compare_atoms(ca, ra, val):
                 if ms:
                     return out + ms
         elif isinstance(c, Star):
-            if c.iter_text != r.iter_text:
+            if r.iter_text != "*" and c.iter_text != r.iter_text:
                 out.append(Mismatch("hole-expr", val, r.text(), c.text(), "(loop range)"))
                 return out
             ms, _ = compare(c.body, r.body)
